@@ -172,3 +172,24 @@ Section ParserStops.
 End ParserStops.
 Print Assumptions C08_parser_returns_on_cancel.
 Print Assumptions C08_parser_returns_on_cancel_with_lines_waiting.
+
+(* ---------- the optional workers (-metrics, -healthz, -audit-metrics), read from the source ----------
+   Gen/OptWorkers.v is REGENERATED on every run from cmd/cmd.go.  For EVERY valuation of the flags: the HTTP
+   server's two goroutines exist exactly when -metrics or -healthz is given; "serve" returns ListenAndServe's error to
+   the errgroup (a failure to listen ends the daemon), "stop" waits for the group context and then shuts that same
+   server down (which makes ListenAndServe return); the audit.log ticker exists exactly with -audit-metrics and is a
+   select loop whose ctx.Done() arm returns and whose other arm can neither block nor leave the loop. *)
+From AM Require Import Model.OptWorkers Gen.OptWorkers Proofs.OptWorkersTie.
+Theorem C08_http_server_goroutines_from_source : forall fl : flags,
+  option_map goroutines (effects fl gen_handleMetricsAndHealth) =
+  Some (if fl "enableMetrics"%string || fl "enableHealthz"%string then [g_serve; g_stop] else []).
+Proof. exact server_goroutines_from_source. Qed.
+Print Assumptions C08_http_server_goroutines_from_source.
+
+Theorem C08_audit_metrics_ticker_from_source : forall fl : flags,
+  match option_map goroutines (effects fl gen_handleAuditLogMetrics) with
+  | Some gs => if fl "enableAuditMetrics"%string then exists g, gs = [g] /\ is_ticker_loop g = true else gs = []
+  | None => False
+  end.
+Proof. exact audit_metrics_from_source. Qed.
+Print Assumptions C08_audit_metrics_ticker_from_source.
